@@ -5,7 +5,10 @@ scope with its own context, handlers submitted after Wait on it; handler submiss
 Tie to /repo: harness/cmd/pipeline family c16 (handler subsets x failing handlers x body shapes
 enumerated, nested tasks, concurrently failing siblings) and the STEERED family c16s (the gate
 controller holds one handler of a try block at its first command until it has seen the fate of the
-other; `stall` if nothing happens), traces decided by the compiled monitor; and a STRUCTURAL tie:
+other; `stall` if nothing happens) and the SCOPE family c16x (the same graphs run in eight kinds of scope: application /
+scope.New session / scope.NewChild / the real terminal's isolated scope, each also with the scripts run directly by
+Terminal.RunLoop one after another in the session, half of them with the real pip:clear in bodies - so that a try block is
+the first pipeline command of a data scope without a task manager), traces decided by the compiled monitor; and a STRUCTURAL tie:
 harness/cmd/pipefacts (go/ast) regenerates lean/Goat/Tie/ExtractedPipeC16.lean on every run and the theorems tie_*
 of lean/Goat/Tie/PipeC16.lean compare the skeleton of pipc.Try with what the model's try steps assume
 (checks/pipe_tie.py).  PARTIAL level as C14.
@@ -54,7 +57,7 @@ META = dict(
 
 def run(ctx):
     try:
-        pc.run_family(ctx, "C16", "c16", 3000, 200000, ["C16", "C14"], steered=(288 * 3, 288 * 40),
+        pc.run_family(ctx, "C16", "c16", 3000, 200000, ["C16", "C14"], steered=(288 * 3, 288 * 40), scoped=(3200, 80000),
                       obligations=pipe_tie.obligations, tie_modules=[pipe_tie.tie_module(ctx)])
     finally:
         pipe_tie.restore(ctx)   # a run against a scratch worktree leaves the extracted facts of /repo behind
